@@ -117,6 +117,12 @@ def run(res, tier):
             raise AnalysisBroken('IsPerItemClearNecessary for %s does not fold to a constant' % inst)
         clear_needed = bool(rets[0]['ch'][0]['v'])
         res.info('DEFAULT-OUTSIDE-WINDOW', ipc[0].where(), '%s: IsPerItemClearNecessary() == %s' % (inst, clear_needed))
+        # EnsureSizeAux and the private helpers it was split into (msa/ip.py): the growth obligations follow the code
+        from msa import ip as IP
+        ensure_scope = set()
+        for f0 in funcs:
+            if f0.q.endswith('::EnsureSizeAux'):
+                ensure_scope |= set(g_.id for g_ in IP.scope(fx, f0, r'^muscle::Queue::', single_caller=False) if (inst + '::') in g_.name and g_.q.split('::')[-1].startswith('EnsureSize'))
         for f in sorted(funcs, key=lambda f: f.line):
             short = f.q.split('::')[-1]
             if short in ('(ctor)', '(dtor)'):
@@ -160,10 +166,10 @@ def run(res, tier):
                            how='`slot = GetDefaultItem()` at line %s on every feasible path' % (stores[0].get('l') if stores else '?'),
                            message='Queue<%s>::%s decreases the item count without resetting the vacated slot to the default item: the removed item stays alive (its references are not released) and reappears when '
                                    'EnsureSize(n, true) grows the queue over that slot' % (label, short))
-                elif kind in ('set',) and not clear_needed and short == 'EnsureSizeAux':
+                elif kind in ('set',) and not clear_needed and (short == 'EnsureSizeAux' or f.id in ensure_scope):
                     total += 1
                     ok = bool(stores) and P.must_precede(f, store_loops(f, stores), w, infeasible | no_growth_edges(f))
-                    res.ob('DEFAULT-OUTSIDE-WINDOW', where, '%s::EnsureSizeAux grows the item count only after setting the exposed slots to the default item' % inst, ok, function=f.q, key=key + ':%s' % w.get('l'),
+                    res.ob('DEFAULT-OUTSIDE-WINDOW', where, '%s::%s grows the item count only after setting the exposed slots to the default item' % (inst, short), ok, function=f.q, key=key + ':%s' % w.get('l'),
                            how='default-store loop at line(s) %s precedes' % [s.get('l') for s in stores],
                            message='Queue<%s>::EnsureSizeAux(size, setNumItems=true) exposes slots that were never reset (trivial item types are not cleared on removal, and new[] leaves them uninitialized): '
                                    'add 5,7; remove both; EnsureSize(2,true) yields 5,7 instead of 0,0' % label)
@@ -438,9 +444,37 @@ def run(res, tier):
         esc = const_edges(f, fx, True) | not_small_edges(f)
         ev = store_loops(f, inline_resets(f)) + [c for c in f.walk() if c['k'] == 'CXXMemberCallExpr' and (c.get('q') or '').endswith('::Clear')
                                                   and (c.receiver() is None or A.strip_casts(c.receiver())['k'] == 'CXXThisExpr')]
+        # a private helper: what every one of its call sites knows about the receiver's buffer holds at its entry (a block that was extracted keeps the facts of the place it was cut from)
+        entry_heap = False
+        from msa import ip as IP
+        from msa import guards as G
+        cs = IP.call_sites_of(fx, f, r'^muscle::Queue::')
+        if cs:
+            entry_heap = True
+            for (h, c) in cs:
+                rc = c.receiver() if c['k'] == 'CXXMemberCallExpr' else None
+                rk = 'this' if rc is None or A.strip_casts(rc)['k'] == 'CXXThisExpr' else A.render_key(A.strip_casts(rc))
+                known = False
+                for (cn, t) in G.atoms_at(h, c):
+                    for (l_, op_, r_) in A.rel_forms(cn, t):
+                        if op_ == '!=' and l_['k'] == 'MemberExpr' and r_['k'] == 'MemberExpr' and (l_.get('n'), r_.get('n')) == ('_queue', '_smallQueue'):
+                            bk = lambda m: 'this' if A.is_this_member(m) else A.render_key(A.strip_casts(m['ch'][0])) if m.get('ch') else None
+                            if bk(l_) == rk and bk(r_) == rk:
+                                known = True
+                # … and the receiver's _queue is not re-pointed in the caller between that test and the call
+                if known and any(w2['k'] == 'BinaryOperator' and w2.get('op') == '=' and A.strip_casts(w2['ch'][0])['k'] == 'MemberExpr' and A.strip_casts(w2['ch'][0]).get('n') == '_queue'
+                                 and ('this' if A.is_this_member(A.strip_casts(w2['ch'][0])) else A.render_key(A.strip_casts(A.strip_casts(w2['ch'][0])['ch'][0]))) == rk
+                                 and P.pos_of(h, w2) and P.pos_of(h, c) and (C.can_reach(h, P.pos_of(h, w2), set([P.pos_of(h, c)])) or (P.pos_of(h, w2)[0] == P.pos_of(h, c)[0] and P.pos_of(h, w2)[1] < P.pos_of(h, c)[1]))
+                                 for w2 in h.walk()):
+                    known = False
+                entry_heap = entry_heap and known
+        to_small = [w2 for w2 in f.walk() if w2['k'] == 'BinaryOperator' and w2.get('op') == '=' and A.strip_casts(w2['ch'][0]).get('n') == '_queue' and A.is_this_member(A.strip_casts(w2['ch'][0]))
+                    and A.strip_casts(w2['ch'][1]).get('n') == '_smallQueue']
         for w in sites:
             n_ai += 1
             ok = P.must_precede(f, ev, w, esc)
+            if not ok and entry_heap and not any(P.pos_of(f, t2) and P.pos_of(f, w) and C.can_reach(f, P.pos_of(f, t2), set([P.pos_of(f, w)])) for t2 in to_small):
+                ok = True
             res.ob('ABANDON-INLINE', f.where(w), '%s: `%s` leaves no item behind in the inline buffer' % (short, w.text(40)), ok, function=f.q,
                    key='ABANDON-INLINE|%s|%s' % (f.q.split('<')[0], A.strip_casts(w['ch'][1]).text(30) if w['k'] == 'BinaryOperator' else 'swap'),
                    how='reset event(s) at line(s) %s; %d exempting edge(s)' % (sorted(set(e.get('l') for e in ev)), len(esc)),
